@@ -261,7 +261,8 @@ impl PoolRun {
         belief: Option<u128>,
     ) -> (Res, String, String) {
         let u = self.user(ui);
-        let to_s = if to == ui { None } else { Some(self.users[to].to_string()) };
+        // recipient 3 is the pool's fee collector (a swap paid out to it is a swap like any other: pause switches included)
+        let to_s = if to == ui { None } else if to == 3 { Some(self.collector.to_string()) } else { Some(self.users[to].to_string()) };
         let dpre = self.w.digest();
         // `wrong_path`: a cw20 offer named in the DIRECT swap message (which is for native offers only), with a coin of the
         // pair's other asset (or nothing) attached instead of the tokens: nothing is paid in, so it must be refused
@@ -549,7 +550,7 @@ pub fn run_random(rec: &mut Rec, seed: u64, run: u64, nops: usize, stable: bool)
                         _ => p0.saturating_sub(p0 / 100),
                     }.max(1))
                 } else { None };
-                let to = if r.gen_bool(0.2) { r.gen_range(0..3usize) } else { ui };
+                let to = match r.gen_range(0..10) { 0 | 1 => r.gen_range(0..3usize), 2 => 3, _ => ui };
                 // one swap in ten with a cw20 offer names it in the direct message instead of sending the tokens
                 let wrong = matches!(p.assets[dir], A::Cw20(_)) && r.gen_range(0..10) == 0;
                 p.wrong_path = wrong;
@@ -562,7 +563,7 @@ pub fn run_random(rec: &mut Rec, seed: u64, run: u64, nops: usize, stable: bool)
                 let g = |k: &str| rs.attr("swap", k).unwrap_or("0".into());
                 ev.insert("ev".into(), json!("swap"));
                 ev.insert("actor".into(), json!(USERS[ui]));
-                ev.insert("args".into(), json!({"dir": dir + 1, "offer": s(offer), "to": USERS[to],
+                ev.insert("args".into(), json!({"dir": dir + 1, "offer": s(offer), "to": if to == 3 { "collector" } else { USERS[to] },
                     "ms": opt_s(ms), "bp": opt_s(belief), "wrong_path": wrong, "funds": FUNDS_MODES[fm as usize]}));
                 // the reverse quote for what the forward quote promises
                 let ask: u128 = sim["ret"].as_str().and_then(|x| x.parse().ok()).unwrap_or(0);
